@@ -1465,6 +1465,404 @@ example : Ecs.declinedOf ⟨true, 0, false, true, 3, 2⟩ = true ∧ Ecs.ctryOf 
 #print axioms ecs_glue_declined
 #print axioms ecs_glue_located
 
+/-! ## Round 5: request header bits that are forwarded but not keyed (CD, AD)
+
+Both caches hand the request to the next handler with its CD and AD bits unchanged, and neither key
+contains them.  A validating upstream answers according to them (RFC 4035 3.2.2: with CD the
+unvalidated data, without it validated data or SERVFAIL; RFC 6840 5.8: the AD bit only for requests
+with AD or DO).  `UpH` is an upstream that sees the two bits. -/
+
+abbrev Simple.UpH := Bool → Bool → Key → Msg
+
+def Simple.answerForH (up : Simple.UpH) (q : Req) : Msg := echo q (up q.cd q.ad (Simple.keyOfReq q))
+
+def Simple.runUpH (cfg : Cfg) (up : Simple.UpH) : Store → List (Nat × Req ⊕ Key) → Store
+  | s, [] => s
+  | s, .inl (now, q) :: evs => Simple.runUpH cfg up (Simple.step cfg s now q (Simple.answerForH up q)).store evs
+  | s, .inr k :: evs => Simple.runUpH cfg up (s.del k) evs
+
+abbrev Ecs.UpH := Bool → Bool → Ecs.Up
+
+def Ecs.answerForH (up : Ecs.UpH) (q : Req) : Msg := Ecs.answerFor (up q.cd q.ad) q
+def Ecs.depForH (up : Ecs.UpH) (q : Req) : Bool := Ecs.depFor (up q.cd q.ad) q
+
+def Ecs.runUpH (cfg : Cfg) (up : Ecs.UpH) : Store → List (Nat × Req ⊕ Key) → Store
+  | s, [] => s
+  | s, .inl (now, q) :: evs =>
+    Ecs.runUpH cfg up (Ecs.step cfg s now q (Ecs.answerForH up q) (Ecs.depForH up q)).store evs
+  | s, .inr k :: evs => Ecs.runUpH cfg up (s.del k) evs
+
+/-- Every request of the history carries the CD bit `cd` and the AD bit `ad`. -/
+def HdrUniform (cd ad : Bool) : List (Nat × Req ⊕ Key) → Prop
+  | [] => True
+  | .inl (_, q) :: evs => q.cd = cd ∧ q.ad = ad ∧ HdrUniform cd ad evs
+  | .inr _ :: evs => HdrUniform cd ad evs
+
+theorem Simple.runUpH_uniform (cfg : Cfg) (up : Simple.UpH) (cd ad : Bool) (s : Store)
+    (evs : List (Nat × Req ⊕ Key)) (h : HdrUniform cd ad evs) :
+    Simple.runUpH cfg up s evs = Simple.runUp cfg (up cd ad) s evs := by
+  induction evs generalizing s with
+  | nil => rfl
+  | cons ev evs ih =>
+    cases ev with
+    | inl p =>
+      obtain ⟨now, q⟩ := p
+      obtain ⟨h1, h2, h3⟩ := h
+      have e : Simple.answerForH up q = Simple.answerFor (up cd ad) q := by
+        unfold Simple.answerForH Simple.answerFor; rw [h1, h2]
+      show Simple.runUpH cfg up (Simple.step cfg s now q (Simple.answerForH up q)).store evs = _
+      rw [e]; exact ih _ h3
+    | inr k => exact ih _ h
+
+theorem Ecs.runUpH_uniform (cfg : Cfg) (up : Ecs.UpH) (cd ad : Bool) (s : Store)
+    (evs : List (Nat × Req ⊕ Key)) (h : HdrUniform cd ad evs) :
+    Ecs.runUpH cfg up s evs = Ecs.runUp cfg (up cd ad) s evs := by
+  induction evs generalizing s with
+  | nil => rfl
+  | cons ev evs ih =>
+    cases ev with
+    | inl p =>
+      obtain ⟨now, q⟩ := p
+      obtain ⟨h1, h2, h3⟩ := h
+      have e1 : Ecs.answerForH up q = Ecs.answerFor (up cd ad) q := by
+        unfold Ecs.answerForH; rw [h1, h2]
+      have e2 : Ecs.depForH up q = Ecs.depFor (up cd ad) q := by
+        unfold Ecs.depForH; rw [h1, h2]
+      show Ecs.runUpH cfg up (Ecs.step cfg s now q (Ecs.answerForH up q) (Ecs.depForH up q)).store evs = _
+      rw [e1, e2]; exact ih _ h3
+    | inr k => exact ih _ h
+
+/-- **simple_hit_equals_fresh_same_bits.**  Against an upstream that also reads the CD and AD bits:
+cached == fresh holds for every history whose requests carry the same two bits as `q` (any
+names, types, classes, DO, times, evictions). -/
+theorem simple_hit_equals_fresh_same_bits (cfg : Cfg) (up : Simple.UpH)
+    (evs : List (Nat × Req ⊕ Key)) (now : Nat) (q : Req) (h : HdrUniform q.cd q.ad evs) :
+    SameModTTL (Simple.step cfg (Simple.runUpH cfg up Store.empty evs) now q (Simple.answerForH up q)).resp
+      (Simple.step cfg Store.empty now q (Simple.answerForH up q)).resp := by
+  rw [Simple.runUpH_uniform cfg up q.cd q.ad _ evs h]
+  exact simple_hit_equals_fresh cfg (up q.cd q.ad) evs now q
+
+theorem ecs_hit_equals_fresh_same_bits (cfg : Cfg) (up : Ecs.UpH)
+    (evs : List (Nat × Req ⊕ Key)) (now : Nat) (q : Req)
+    (hs : ScopeHonest (up q.cd q.ad)) (hd : DOOnlyAdds (up q.cd q.ad)) (h : HdrUniform q.cd q.ad evs) :
+    SameModTTL
+      (Ecs.step cfg (Ecs.runUpH cfg up Store.empty evs) now q (Ecs.answerForH up q) (Ecs.depForH up q)).resp
+      (Ecs.step cfg Store.empty now q (Ecs.answerForH up q) (Ecs.depForH up q)).resp := by
+  rw [Ecs.runUpH_uniform cfg up q.cd q.ad _ evs h]
+  exact ecs_hit_equals_fresh cfg (up q.cd q.ad) hs hd evs now q
+
+/-- A validating upstream and a zone with a broken signature: SERVFAIL, or the data if the request
+has CD. -/
+def servfailMsg : Msg := { exMsg with rcode := 2, answer := [], extra := [] }
+def upValidating : Simple.UpH := fun cd _ _ => if cd then exMsg else servfailMsg
+def upValidatingE : Ecs.UpH := fun cd _ _ _ _ _ _ _ => (if cd then exMsg else servfailMsg, false)
+
+/-- A validating upstream and a signed zone: AD only for requests with AD or DO. -/
+def upADReq : Simple.UpH := fun _ ad k =>
+  { exMsg with ad := ad || (match k with | .simple d _ _ _ => d | _ => false) }
+def upADReqE : Ecs.UpH := fun _ ad _ _ _ _ _ _ => ({ exMsg with ad := ad }, false)
+
+def reqBits (cd ad : Bool) : Req := { exReq with do_ := false, cd := cd, ad := ad }
+
+/-- **simple_cd_counterexample** (known finding `simple:cd-not-in-key`).  The first client asks with
+CD = 1 and gets the unvalidated data, the second asks the same question with CD = 0 two seconds
+later: it is served that data from cache, a fresh answer is SERVFAIL. -/
+theorem simple_cd_counterexample :
+    ¬ ∀ (cfg : Cfg) (up : Simple.UpH) (evs : List (Nat × Req ⊕ Key)) (now : Nat) (q : Req),
+      SameModTTL (Simple.step cfg (Simple.runUpH cfg up Store.empty evs) now q (Simple.answerForH up q)).resp
+        (Simple.step cfg Store.empty now q (Simple.answerForH up q)).resp := by
+  intro h
+  exact absurd (h ⟨0, false⟩ upValidating [.inl (0, reqBits true false)] 1 (reqBits false false)).1
+    (by decide +kernel)
+
+/-- **simple_ad_request_counterexample** (known finding `simple:ad-request-not-in-key`): the answer
+stored for a client without AD and DO is served without the AD flag to a client that set AD. -/
+theorem simple_ad_request_counterexample :
+    ¬ ∀ (cfg : Cfg) (up : Simple.UpH) (evs : List (Nat × Req ⊕ Key)) (now : Nat) (q : Req),
+      SameModTTL (Simple.step cfg (Simple.runUpH cfg up Store.empty evs) now q (Simple.answerForH up q)).resp
+        (Simple.step cfg Store.empty now q (Simple.answerForH up q)).resp := by
+  intro h
+  exact absurd (h ⟨0, false⟩ upADReq [.inl (0, reqBits false false)] 1 (reqBits false true)).2.2.1
+    (by decide +kernel)
+
+theorem upValidatingE_honest (cd ad : Bool) : ScopeHonest (upValidatingE cd ad) ∧ DOOnlyAdds (upValidatingE cd ad) :=
+  ⟨fun _ _ _ _ _ _ _ _ => rfl, fun _ _ _ _ _ => ⟨rfl, rfl⟩⟩
+
+theorem upADReqE_honest (cd ad : Bool) : ScopeHonest (upADReqE cd ad) ∧ DOOnlyAdds (upADReqE cd ad) :=
+  ⟨fun _ _ _ _ _ _ _ _ => rfl, fun _ _ _ _ _ => ⟨rfl, rfl⟩⟩
+
+/-- **ecs_cd_counterexample** (known finding `ecs:cd-not-in-key`): the same for the ECS-aware cache,
+with an upstream that is scope-honest and DO-additive for each setting of the two bits. -/
+theorem ecs_cd_counterexample :
+    ¬ ∀ (cfg : Cfg) (up : Ecs.UpH), (∀ cd ad, ScopeHonest (up cd ad) ∧ DOOnlyAdds (up cd ad)) →
+      ∀ (evs : List (Nat × Req ⊕ Key)) (now : Nat) (q : Req),
+      SameModTTL
+        (Ecs.step cfg (Ecs.runUpH cfg up Store.empty evs) now q (Ecs.answerForH up q) (Ecs.depForH up q)).resp
+        (Ecs.step cfg Store.empty now q (Ecs.answerForH up q) (Ecs.depForH up q)).resp := by
+  intro h
+  exact absurd (h ⟨0, false⟩ upValidatingE upValidatingE_honest [.inl (0, reqBits true false)] 1 (reqBits false false)).1
+    (by decide +kernel)
+
+/-- **ecs_ad_request_counterexample** (known finding `ecs:ad-request-not-in-key`). -/
+theorem ecs_ad_request_counterexample :
+    ¬ ∀ (cfg : Cfg) (up : Ecs.UpH), (∀ cd ad, ScopeHonest (up cd ad) ∧ DOOnlyAdds (up cd ad)) →
+      ∀ (evs : List (Nat × Req ⊕ Key)) (now : Nat) (q : Req),
+      SameModTTL
+        (Ecs.step cfg (Ecs.runUpH cfg up Store.empty evs) now q (Ecs.answerForH up q) (Ecs.depForH up q)).resp
+        (Ecs.step cfg Store.empty now q (Ecs.answerForH up q) (Ecs.depForH up q)).resp := by
+  intro h
+  exact absurd (h ⟨0, false⟩ upADReqE upADReqE_honest [.inl (0, reqBits false false)] 1 (reqBits false true)).2.2.1
+    (by decide +kernel)
+
+/-- Non-vacuity: `HdrUniform` holds for a two-request history with an eviction in between; with equal
+bits the second client of `upValidating` is served from cache. -/
+example : HdrUniform false false [.inl (0, reqBits false false), .inr (Simple.keyOfReq exReq), .inl (1, { reqBits false false with qtype := 28 })] := by
+  simp [HdrUniform, reqBits]
+example : (Simple.step ⟨0, false⟩ (Simple.runUpH ⟨0, false⟩ upValidating Store.empty [.inl (0, reqBits true false)]) 1
+    (reqBits true true) (Simple.answerForH upValidating (reqBits true true))).hit = true := by decide +kernel
+
+
+/-- Every request of the history satisfies `P`. -/
+def AllReq (P : Req → Prop) : List (Nat × Req ⊕ Key) → Prop
+  | [] => True
+  | .inl (_, q) :: evs => P q ∧ AllReq P evs
+  | .inr _ :: evs => AllReq P evs
+
+/-- Every entry under `k` holds what `set` made of the answer to a request `q0` with key `k` and
+property `P`, asked with `q0`'s own CD and AD bits. -/
+def InvUpP (cfg : Cfg) (up : Simple.UpH) (P : Req → Prop) (s : Store) : Prop :=
+  ∀ k e, s k = some e → ∃ q0, P q0 ∧ Simple.keyOfReq q0 = k ∧
+    e.msg = (prepStore cfg q0.qtype (echo q0 (up q0.cd q0.ad k))).1 ∧
+    (prepStore cfg q0.qtype (echo q0 (up q0.cd q0.ad k))).2 ≠ none
+
+theorem Simple.invUpP_run (cfg : Cfg) (up : Simple.UpH) (P : Req → Prop) (s : Store)
+    (evs : List (Nat × Req ⊕ Key)) (hp : AllReq P evs) (h : InvUpP cfg up P s) :
+    InvUpP cfg up P (Simple.runUpH cfg up s evs) := by
+  induction evs generalizing s with
+  | nil => exact h
+  | cons ev evs ih =>
+    cases ev with
+    | inl p =>
+      obtain ⟨now, q⟩ := p
+      obtain ⟨hq, hrest⟩ := hp
+      apply ih _ hrest
+      show InvUpP cfg up P (Simple.step cfg s now q (Simple.answerForH up q)).store
+      unfold Simple.step Simple.stepWith
+      split
+      · exact h
+      · split
+        · exact h
+        · rename_i life hpst
+          intro k' e he
+          dsimp only at he
+          by_cases hk : k' = Simple.keyOfReq q
+          · subst hk
+            rw [put_same] at he
+            cases he
+            refine ⟨q, hq, rfl, rfl, ?_⟩
+            show (prepStore cfg q.qtype (Simple.answerForH up q)).2 ≠ none
+            rw [hpst]; simp
+          · rw [put_other s _ k' _ hk] at he; exact h k' e he
+    | inr k =>
+      apply ih _ hp
+      intro k' e he
+      by_cases hk : k' = k
+      · subst hk; simp at he
+      · rw [del_other s k k' hk] at he; exact h k' e he
+
+/-- **simple_hit_equals_fresh_keyed_bits.**  Against an upstream that reads the forwarded CD and AD bits,
+cached == fresh holds for `q` after every history in which the requests *for the same question and DO
+bit as `q`* carry `q`'s CD and AD bits — whatever bits the other requests carry.  (Exactly the
+condition the known findings `simple:cd-not-in-key` / `simple:ad-request-not-in-key` violate.) -/
+theorem simple_hit_equals_fresh_keyed_bits (cfg : Cfg) (up : Simple.UpH)
+    (evs : List (Nat × Req ⊕ Key)) (now : Nat) (q : Req)
+    (hb : AllReq (fun q0 => Simple.keyOfReq q0 = Simple.keyOfReq q → q0.cd = q.cd ∧ q0.ad = q.ad) evs) :
+    SameModTTL (Simple.step cfg (Simple.runUpH cfg up Store.empty evs) now q (Simple.answerForH up q)).resp
+      (Simple.step cfg Store.empty now q (Simple.answerForH up q)).resp := by
+  have hinv := Simple.invUpP_run cfg up _ Store.empty evs hb (by intro k e h; cases h)
+  generalize Simple.runUpH cfg up Store.empty evs = s at *
+  have hfresh : (Simple.step cfg Store.empty now q (Simple.answerForH up q)).resp =
+      (prepStore cfg q.qtype (Simple.answerForH up q)).1 := by
+    unfold Simple.step Simple.stepWith
+    simp only [Store.live, Store.empty]
+    split <;> rfl
+  rw [hfresh]
+  unfold Simple.step Simple.stepWith
+  split
+  · rename_i e hl
+    obtain ⟨hk, _⟩ := live_some s now _ e hl
+    obtain ⟨q0, hP, hk0, hm, hstored⟩ := hinv _ e hk
+    obtain ⟨hcd, had⟩ := hP hk0
+    rw [hcd, had] at hm hstored
+    obtain ⟨up', hup'⟩ : ∃ u, u = up q.cd q.ad := ⟨_, rfl⟩
+    rw [← hup'] at hm hstored
+    have hqt : q0.qtype = q.qtype := by
+      have := (Simple.key_eq_iff q0 q).mp hk0; exact this.2.1
+    obtain ⟨ans0, hs0, hst0⟩ := prepStore_echo_fields cfg q0.qtype q0 (up' (Simple.keyOfReq q))
+    obtain ⟨ans1, hs1, hst1⟩ := prepStore_echo_fields cfg q.qtype q (up' (Simple.keyOfReq q))
+    have htc : (up' (Simple.keyOfReq q)).tc = false := by
+      cases hp : (prepStore cfg q0.qtype (echo q0 (up' (Simple.keyOfReq q)))).2 with
+      | none => exact absurd hp hstored
+      | some life =>
+        have := (prepStore_some cfg q0.qtype _ life hp).2.1
+        exact (cacheable_sound q0.qtype _ this).1
+    have hans : Simple.answerForH up q = echo q (up' (Simple.keyOfReq q)) := by
+      unfold Simple.answerForH; rw [hup']
+    rw [hm, hs0, hans, hs1]
+    refine ⟨rfl, ?_, rfl, rfl, rfl, rfl, ?_, ?_, ?_⟩
+    · show false = (up' (Simple.keyOfReq q)).tc
+      rw [htc]
+    · show strip (ans0.map _) = strip ans1
+      rw [strip_map_setTTL, hst0, hst1]
+    · show strip ((echo q0 (up' (Simple.keyOfReq q))).ns.map _) = strip (echo q (up' (Simple.keyOfReq q))).ns
+      rw [strip_map_setTTL]; rfl
+    · show strip (((echo q0 (up' (Simple.keyOfReq q))).extra.filter _).map _) = strip (echo q (up' (Simple.keyOfReq q))).extra
+      rw [strip_map_setTTL, strip_filter_nonOPT]; rfl
+  · split <;> exact ⟨rfl, rfl, rfl, rfl, rfl, rfl, rfl, rfl, rfl⟩
+
+/-- Non-vacuity: a history with a CD = 1 request for ANOTHER type satisfies the hypothesis for a CD = 0
+asker, and the asker is then served its own (SERVFAIL) answer from cache. -/
+example : AllReq (fun q0 => Simple.keyOfReq q0 = Simple.keyOfReq (reqBits false false) → q0.cd = (reqBits false false).cd ∧ q0.ad = (reqBits false false).ad)
+    [.inl (0, { reqBits true false with qtype := 28 }), .inl (0, reqBits false false)] := by
+  refine ⟨fun h => ?_, fun _ => ⟨rfl, rfl⟩, trivial⟩
+  exact absurd h (by decide)
+
+#print axioms Simple.invUpP_run
+#print axioms simple_hit_equals_fresh_keyed_bits
+
+/-- `q0` asks the same question with the same DO bit and address family as `q` (what both ECS keys
+have in common). -/
+def Ecs.SameQuestion (q0 q : Req) : Prop :=
+  q0.name.toLower = q.name.toLower ∧ q0.qtype = q.qtype ∧ q0.qclass = q.qclass ∧ q0.do_ = q.do_ ∧ q0.fam6 = q.fam6
+
+def Ecs.InvUpP (cfg : Cfg) (up : Ecs.UpH) (P : Req → Prop) (s : Store) : Prop :=
+  ∀ k e, s k = some e → ∃ q0, P q0 ∧ k = (if Ecs.depForH up q0 then Ecs.keyDep q0 else Ecs.keyNo q0) ∧
+    e.msg = (prepStore cfg q0.qtype (echo q0 (Ecs.core (up q0.cd q0.ad) q0))).1 ∧
+    (prepStore cfg q0.qtype (echo q0 (Ecs.core (up q0.cd q0.ad) q0))).2 ≠ none
+
+theorem Ecs.invUpP_run (cfg : Cfg) (up : Ecs.UpH) (P : Req → Prop) (s : Store) (evs : List (Nat × Req ⊕ Key))
+    (hp : AllReq P evs) (h : Ecs.InvUpP cfg up P s) : Ecs.InvUpP cfg up P (Ecs.runUpH cfg up s evs) := by
+  induction evs generalizing s with
+  | nil => exact h
+  | cons ev evs ih =>
+    cases ev with
+    | inr k =>
+      apply ih _ hp
+      intro k' e he
+      by_cases hk : k' = k
+      · subst hk; simp at he
+      · rw [del_other s k k' hk] at he; exact h k' e he
+    | inl p =>
+      obtain ⟨now, q⟩ := p
+      obtain ⟨hq, hrest⟩ := hp
+      apply ih _ hrest
+      show Ecs.InvUpP cfg up P (Ecs.step cfg s now q (Ecs.answerForH up q) (Ecs.depForH up q)).store
+      unfold Ecs.step
+      split
+      · exact h
+      · split
+        · exact h
+        · rename_i life hpst
+          intro k' e he
+          dsimp only at he
+          by_cases hk : k' = (if Ecs.depForH up q then Ecs.keyDep q else Ecs.keyNo q)
+          · subst hk
+            rw [put_same] at he
+            cases he
+            refine ⟨q, hq, rfl, rfl, ?_⟩
+            show (prepStore cfg q.qtype (Ecs.rmHop (Ecs.answerForH up q) q.qtype q.do_)).2 ≠ none
+            rw [hpst]; simp
+          · rw [put_other s _ k' _ hk] at he; exact h k' e he
+
+/-- **ecs_hit_equals_fresh_keyed_bits.**  The ECS-aware cache against an upstream that reads the forwarded
+CD and AD bits (scope-honest and DO-additive for the asker's setting of the bits): cached == fresh
+holds for `q` after every history in which the requests for the same question, DO bit and address
+family carry `q`'s CD and AD bits — whatever the other requests carry. -/
+theorem ecs_hit_equals_fresh_keyed_bits (cfg : Cfg) (up : Ecs.UpH)
+    (evs : List (Nat × Req ⊕ Key)) (now : Nat) (q : Req)
+    (hs : ScopeHonest (up q.cd q.ad)) (hd : DOOnlyAdds (up q.cd q.ad))
+    (hb : AllReq (fun q0 => Ecs.SameQuestion q0 q → q0.cd = q.cd ∧ q0.ad = q.ad) evs) :
+    SameModTTL
+      (Ecs.step cfg (Ecs.runUpH cfg up Store.empty evs) now q (Ecs.answerForH up q) (Ecs.depForH up q)).resp
+      (Ecs.step cfg Store.empty now q (Ecs.answerForH up q) (Ecs.depForH up q)).resp := by
+  have hinv := Ecs.invUpP_run cfg up _ Store.empty evs hb (by intro k e h; cases h)
+  generalize Ecs.runUpH cfg up Store.empty evs = s at *
+  obtain ⟨up', hup'⟩ : ∃ u, u = up q.cd q.ad := ⟨_, rfl⟩
+  have ha : Ecs.answerForH up q = Ecs.answerFor up' q := by unfold Ecs.answerForH; rw [hup']
+  have hdp : Ecs.depForH up q = Ecs.depFor up' q := by unfold Ecs.depForH; rw [hup']
+  rw [ha, hdp]
+  rw [← hup'] at hs hd
+  have hfresh : (Ecs.step cfg Store.empty now q (Ecs.answerFor up' q) (Ecs.depFor up' q)).resp =
+      Ecs.setAD (prepStore cfg q.qtype (echo q (Ecs.core up' q))).1 q := by
+    unfold Ecs.step Ecs.lookup
+    simp only [Store.live, Store.empty]
+    split
+    · rename_i h; split at h <;> cases h
+    · split <;> rfl
+  rw [hfresh]
+  have key : ∀ k e, (k = Ecs.keyNo q ∨ (k = Ecs.keyDep q ∧ q.declined = false)) → s.live now k = some e →
+      SameModTTL (Ecs.hit e.msg (now - e.at_) q) (Ecs.setAD (prepStore cfg q.qtype (echo q (Ecs.core up' q))).1 q) := by
+    intro k e hk hl
+    obtain ⟨hsk, _⟩ := live_some s now k e hl
+    obtain ⟨q0, hP, hkey, hmsg, _⟩ := hinv k e hsk
+    have hm0 := Ecs.matches_of_key q0 q _ k hk hkey
+    obtain ⟨hcd, had⟩ := hP ⟨hm0.1, hm0.2.1, hm0.2.2.1, hm0.2.2.2.1, hm0.2.2.2.2.1⟩
+    have hu0 : up q0.cd q0.ad = up' := by rw [hcd, had, hup']
+    have hdep0 : Ecs.depForH up q0 = Ecs.depFor up' q0 := by unfold Ecs.depForH; rw [hu0]
+    rw [hu0] at hmsg
+    rw [hdep0] at hm0
+    have hcore := Ecs.core_eq_of_matches up' hs hd q0 q hm0
+    rw [hmsg, hcore, hm0.2.1]
+    obtain ⟨ans0, hs0, hst0⟩ := prepStore_echo_fields cfg q.qtype q0 (Ecs.core up' q)
+    obtain ⟨ans1, hs1, hst1⟩ := prepStore_echo_fields cfg q.qtype q (Ecs.core up' q)
+    rw [hs0, hs1]
+    refine ⟨rfl, rfl, rfl, rfl, rfl, rfl, ?_, ?_, ?_⟩
+    · show strip (ans0.map _) = strip ans1
+      rw [strip_map_setTTL, hst0, hst1]
+    · show strip ((echo q0 (Ecs.core up' q)).ns.map _) = strip (echo q (Ecs.core up' q)).ns
+      rw [strip_map_setTTL]; rfl
+    · show strip ((echo q0 (Ecs.core up' q)).extra.map _) = strip (echo q (Ecs.core up' q)).extra
+      rw [strip_map_setTTL]; rfl
+  unfold Ecs.step
+  split
+  · rename_i e hl
+    unfold Ecs.lookup at hl
+    split at hl
+    · rename_i e' hl'
+      cases hl
+      exact key _ e (Or.inl rfl) hl'
+    · split at hl
+      · cases hl
+      · rename_i hdd
+        have hd' : q.declined = false := by cases hq : q.declined <;> simp_all
+        exact key _ e (Or.inr ⟨rfl, hd'⟩) hl
+  · split <;> exact ⟨rfl, rfl, rfl, rfl, rfl, rfl, rfl, rfl, rfl⟩
+
+
+/-- Non-vacuity (ECS): the hypothesis holds with a CD = 1 request for another type in the history, the
+upstream `upValidatingE` satisfies the two contracts, and the CD = 0 asker is served from cache. -/
+example : AllReq (fun q0 => Ecs.SameQuestion q0 (reqBits false false) → q0.cd = (reqBits false false).cd ∧ q0.ad = (reqBits false false).ad)
+    [.inl (0, { reqBits true false with qtype := 28 }), .inl (0, reqBits false false)] := by
+  refine ⟨fun h => ?_, fun _ => ⟨rfl, rfl⟩, trivial⟩
+  exact absurd h.2.1 (by decide)
+example : (Ecs.step ⟨0, false⟩ (Ecs.runUpH ⟨0, false⟩ upValidatingE Store.empty
+    [.inl (0, { reqBits true false with qtype := 28 }), .inl (0, reqBits false false)]) 1 (reqBits false false)
+    (Ecs.answerForH upValidatingE (reqBits false false)) (Ecs.depForH upValidatingE (reqBits false false))).hit = true := by
+  decide +kernel
+
+#print axioms Ecs.invUpP_run
+#print axioms ecs_hit_equals_fresh_keyed_bits
+#print axioms Simple.runUpH_uniform
+#print axioms Ecs.runUpH_uniform
+#print axioms simple_hit_equals_fresh_same_bits
+#print axioms ecs_hit_equals_fresh_same_bits
+#print axioms simple_cd_counterexample
+#print axioms simple_ad_request_counterexample
+#print axioms upValidatingE_honest
+#print axioms upADReqE_honest
+#print axioms ecs_cd_counterexample
+#print axioms ecs_ad_request_counterexample
+
 end Agd.Cache
 #print axioms Agd.Tie.TrC04.translation_complete
 #print axioms Agd.Tie.TrC04.ts_true
